@@ -12,8 +12,9 @@
 // encoder's lists).  Then every single-value mutation of the script is re-serialised, the ORIGINAL attribute sections are
 // spliced behind it and the stream goes through Decoder::DecodeMeshFromBuffer in a forked child (ASan+UBSan build, watchdog,
 // allocation monitor) with h_dec's oracles:
-//   ! C02 ...   crash / sanitizer report / hang / input modified / bad_alloc without a large declared count
-//   ! C03 ...   accepted but structurally invalid geometry
+//   ! C02 ...   crash / sanitizer report / hang / input modified / bad_alloc without a large declared count; ! C02-SELFCHECK ... = the
+//               harness's own serialiser / simulation no longer reproduces the real encoder
+//   ! C03 ...   accepted but structurally invalid geometry (! C03-unreferenced-point-after-misglued-interior-start-face = the class of D24)
 //   ! C18 ...   allocation not justified by stream length + declared counts
 // '#' lines: counts per mutation class, accept/reject statistics.  The last token of a '!' line is the hex of the stream.
 #include "common.h"
@@ -663,7 +664,7 @@ static int run_stream(FILE *out, const std::vector<uint8_t> &bytes, const std::s
   const std::string hx = hex(bytes.data(), bytes.size());
   if (copy != bytes) { fprintf(out, "! C02 decoder modified its input bytes: %s %s\n", label.c_str(), hx.c_str()); (*bangs)++; }
   if (!bad.empty()) {
-    // the one consequence of the pinned EB finding (interior start face glued without comparing vertices) gets its own tag
+    // defect D24 (interior start face glued without comparing vertices; fixed in /repo a3a73f7) keeps its own tag: it must not fire any more
     bool tagged = false;
     if (sc && bad.find("is on no face") != std::string::npos) { Script q = *sc; for (auto &l : q.seams) l.assign(3 * (size_t)q.nf + 3, true); while (q.seams.size() < q.nattr && q.seams.size() < 255) q.seams.push_back(std::vector<bool>(3 * (size_t)q.nf + 3, true)); tagged = probe(q).glued;   // every edge a seam: RecomputeVertices cannot fail
       if (!tagged) { q.start.resize(q.syms.size() + 4, true); tagged = probe(q).glued; } }   // start-face bits read behind the end of the coded list (the rANS bit decoder keeps delivering)
